@@ -3,7 +3,8 @@
   Property theorems only; helper lemmas live in `AdaptixProofs/Lemmas/Threads*.lean`.
 
   Model: `AdaptixModel/Retort/Threads.lean` — any number of threads, each performing `retort.load(data, tp)`
-  (`get_loader` + call) on one shared retort; `step sys s t` is one GIL-atomic action of thread `t`; a schedule
+  (`get_loader` + call) on one shared retort, or a request for a type nobody can load, which ends with
+  ProviderNotFoundError (`stepRaise`) instead of a loader; `step sys s t` is one GIL-atomic action of thread `t`; a schedule
   is an arbitrary `List Tid`.  `Mode.byId` is the repaired `FuncWrapper` (stubs compared by identity,
   fixes/C12-stub-identity.patch), `Mode.byLoc` the unrepaired one (stubs equal when their locations are equal).
 -/
@@ -15,14 +16,16 @@ import AdaptixProofs.Lemmas.ThreadsTypedInv
 import AdaptixProofs.Lemmas.ThreadsSeq
 import AdaptixProofs.Lemmas.ThreadsAtomicCall
 import AdaptixProofs.Lemmas.ThreadsExt
+import AdaptixProofs.Lemmas.ThreadsInsertOnly
 
 namespace Adaptix.Threads.C12
 
 open Adaptix.Threads
 
-/-- the retort of a type graph `G`: request programs are what `compile` produces -/
+/-- the retort of a type graph `G`: request programs are what `compile` produces; the request for a type no shape
+    provider recognises (`failsTy`) ends with ProviderNotFoundError -/
 def retort (G : Graph) (mode : Mode) (fuel evalFuel : Nat) : Sys :=
-  { mode := mode, body := compile G fuel, fuel := evalFuel }
+  { mode := mode, body := compile G fuel, fails := failsTy G, fuel := evalFuel }
 
 /-! ### the repaired tree: stubs compared by identity -/
 
@@ -102,17 +105,39 @@ def WellTyped (G : Graph) (fuel : Nat) (reqs : List (TyId × Nat)) : Prop :=
 theorem typed_inv (G : Graph) (fuel evalFuel : Nat) (reqs : List (TyId × Nat)) (hwt : WellTyped G fuel reqs)
     (σ : List Tid) :
     TInv G (retort G .byId fuel evalFuel) (run (retort G .byId fuel evalFuel) (init reqs) σ) :=
-  run_tinv (sys := retort G .byId fuel evalFuel) rfl σ
+  run_tinv (sys := retort G .byId fuel evalFuel) rfl (fun _ => rfl) σ
     (init_inv _ reqs (fun r _ => compile_balanced G fuel r.1)) (tinit_inv G _ reqs hwt)
+
+/-- **Every result is the specified one, at any moment of any schedule** (requests that cannot be satisfied
+    included): whenever a thread has an outcome, it is `specRes` of its request, read off the type graph alone -
+    ProviderNotFoundError for a type nobody can load, otherwise the unfolding of the type along the datum. -/
+theorem every_result_is_the_specified_one (G : Graph) (fuel evalFuel : Nat) (reqs : List (TyId × Nat))
+    (hwt : WellTyped G fuel reqs) (σ : List Tid) (t : Tid) (th : Thread) (res : Res)
+    (h : (run (retort G .byId fuel evalFuel) (init reqs) σ).threads[t]? = some th)
+    (hres : th.result = some res) : res = specRes G evalFuel th.depth th.ty :=
+  ((typed_inv G fuel evalFuel reqs hwt σ).threads t th h).res res hres
 
 /-- **Every result is the specified one, at any moment of any schedule**: whenever a call has returned, it has
     returned the unfolding of its type along the datum (`unfold`, read off the type graph alone) — in particular
-    never an error, and independent of who created which closure. -/
+    never an error, and independent of who created which closure — also when OTHER threads issue requests that
+    fail.  (`hok`: the request of this thread is one that can be satisfied; the former static check implied it.) -/
 theorem every_result_is_the_unfolding (G : Graph) (fuel evalFuel : Nat) (reqs : List (TyId × Nat))
     (hwt : WellTyped G fuel reqs) (σ : List Tid) (t : Tid) (th : Thread) (res : Res)
     (h : (run (retort G .byId fuel evalFuel) (init reqs) σ).threads[t]? = some th)
-    (hres : th.result = some res) : res = unfold G evalFuel th.depth th.ty :=
-  ((typed_inv G fuel evalFuel reqs hwt σ).threads t th h).res res hres
+    (hok : failsTy G th.ty = false)
+    (hres : th.result = some res) : res = unfold G evalFuel th.depth th.ty := by
+  rw [← specRes_ok hok]
+  exact every_result_is_the_specified_one G fuel evalFuel reqs hwt σ t th res h hres
+
+/-- **A request nobody can satisfy ends with ProviderNotFoundError under every interleaving**, exactly as it does
+    single-threaded, whatever the other threads are doing at the time. -/
+theorem failing_request_gets_not_found (G : Graph) (fuel evalFuel : Nat) (reqs : List (TyId × Nat))
+    (hwt : WellTyped G fuel reqs) (σ : List Tid) (t : Tid) (th : Thread) (res : Res)
+    (h : (run (retort G .byId fuel evalFuel) (init reqs) σ).threads[t]? = some th)
+    (hfail : failsTy G th.ty = true)
+    (hres : th.result = some res) : res = .notFound := by
+  have := every_result_is_the_specified_one G fuel evalFuel reqs hwt σ t th res h hres
+  simpa [specRes, hfail] using this
 
 /-- **Every cached loader is the correct loader of its type, at any moment of any schedule and for every later
     call**: whatever is in the loader cache after any schedule - put there by whichever thread won the race,
@@ -126,7 +151,7 @@ theorem cached_loaders_compute_the_unfolding (G : Graph) (fuel evalFuel : Nat) (
     eval (run (retort G .byId fuel evalFuel) (init reqs) σ).heap
          (run (retort G .byId fuel evalFuel) (init reqs) σ).stubs n d e.2 = unfold G n d e.1 :=
   eval_unfold (safe_inv G fuel evalFuel reqs σ) (typed_inv G fuel evalFuel reqs hwt σ) n d e.2 e.1
-    ((safe_inv G fuel evalFuel reqs σ).lc e h) ((typed_inv G fuel evalFuel reqs hwt σ).lc e h)
+    ((safe_inv G fuel evalFuel reqs σ).lc e h) ((typed_inv G fuel evalFuel reqs hwt σ).lc e h).1
 
 /-- results of a complete schedule -/
 theorem complete_results (G : Graph) (fuel evalFuel : Nat) (reqs : List (TyId × Nat))
@@ -134,7 +159,7 @@ theorem complete_results (G : Graph) (fuel evalFuel : Nat) (reqs : List (TyId ×
     (hturns : ∀ (t : Tid) (r : TyId × Nat), reqs[t]? = some r →
       stepBound (retort G .byId fuel evalFuel) r.1 ≤ σ.count t) :
     results (run (retort G .byId fuel evalFuel) (init reqs) σ) =
-      reqs.map (fun r => some (unfold G evalFuel r.2 r.1)) := by
+      reqs.map (fun r => some (specRes G evalFuel r.2 r.1)) := by
   apply List.ext_getElem?
   intro t
   simp only [results, List.getElem?_map]
@@ -146,7 +171,7 @@ theorem complete_results (G : Graph) (fuel evalFuel : Nat) (reqs : List (TyId ×
   | some r =>
     obtain ⟨th, res, h1, _, h3, h4, h5⟩ :=
       every_thread_finishes (retort G .byId fuel evalFuel) reqs σ t r hr (hturns t r hr)
-    have := every_result_is_the_unfolding G fuel evalFuel reqs hwt σ t th res h1 h3
+    have := every_result_is_the_specified_one G fuel evalFuel reqs hwt σ t th res h1 h3
     rw [h1]
     simp only [Option.map_some, h3, this, h4, h5]
 
@@ -154,7 +179,8 @@ theorem complete_results (G : Graph) (fuel evalFuel : Nat) (reqs : List (TyId ×
     static check, and ANY interleaving `σ` of the threads' atomic actions in which every thread gets enough turns
     (unbounded: no bound on threads, preemptions or length): the run completes, no call meets an unbound stub,
     and the results are exactly the results of the **sequential** run (the threads one after another on the same
-    shared retort) — both are the unfolding of each requested type. -/
+    shared retort) — both are `specRes`: the unfolding of each requested type, ProviderNotFoundError for a
+    requested type nobody can load. -/
 theorem all_schedules_safe (G : Graph) (fuel evalFuel : Nat) (reqs : List (TyId × Nat))
     (hwt : WellTyped G fuel reqs) (σ : List Tid)
     (hturns : ∀ (t : Tid) (r : TyId × Nat), reqs[t]? = some r →
@@ -251,6 +277,80 @@ theorem enough_turns_witness (sys : Sys) (reqs : List (TyId × Nat)) :
     · rw [List.getElem?_eq_none h] at hr; cases hr
   rw [count_sequentialSchedule hlt]
   exact le_seqBound _ reqs r (List.mem_of_getElem? hr)
+
+/-! ### the shared caches are insert-only; a request that fails does not disturb the others -/
+
+/-- **The call cache is an insert-only map under every interleaving**: a key that is in `_call_cache` after a
+    schedule `σ` is in it after every continuation `σ ++ σ'` - whatever the threads do in `σ'`, including whole
+    requests that fail with ProviderNotFoundError.  (Any system, any request programs; stubs compared by identity.) -/
+theorem call_cache_insert_only (sys : Sys) (hmode : sys.mode = .byId) (reqs : List (TyId × Nat))
+    (σ σ' : List Tid) (k : Key)
+    (h : ccHas .byId (run sys (init reqs) σ).stubs (run sys (init reqs) σ).callCache k = true) :
+    ccHas .byId (run sys (init reqs) (σ ++ σ')).stubs (run sys (init reqs) (σ ++ σ')).callCache k = true := by
+  rw [run_append]
+  exact run_ccHas hmode k σ' _ h
+
+/-- the same for the loader cache (both comparison modes) -/
+theorem loader_cache_insert_only (sys : Sys) (reqs : List (TyId × Nat)) (σ σ' : List Tid) (ty : TyId)
+    (h : lcHas (run sys (init reqs) σ).loaderCache ty = true) :
+    lcHas (run sys (init reqs) (σ ++ σ')).loaderCache ty = true := by
+  rw [run_append]
+  exact run_lcHas sys ty σ' _ h
+
+/-- **`cached_call`'s read after the check never raises KeyError**: at any moment of any schedule, a thread that
+    has executed `if key in self._call_cache` (found) and is about to execute `return self._call_cache[key]`
+    finds the entry - no matter how many actions of other threads, or whole failing requests, lie in between. -/
+theorem cached_call_read_never_misses (sys : Sys) (hmode : sys.mode = .byId) (reqs : List (TyId × Nat))
+    (σ : List Tid) (t : Tid) (th : Thread) (pc : Nat) (k : Key)
+    (h : (run sys (init reqs) σ).threads[t]? = some th) (hp : th.phase = .run pc .get)
+    (hk : keyAt sys th pc = some k) :
+    ∃ v, ccLookup sys.mode (run sys (init reqs) σ).stubs (run sys (init reqs) σ).callCache k = some v := by
+  have := run_getOk hmode σ (init_getOk sys reqs) t th pc k h hp hk
+  rw [← ccLookup_isSome] at this
+  exact Option.isSome_iff_exists.mp this
+
+/-- **The failure of a request touches nothing shared**: `_facade_provide` raising ProviderNotFoundError leaves
+    the closure heap, the stubs, the call cache and the loader cache exactly as they are. -/
+theorem failing_request_leaves_the_caches_alone (s : State) (t : Tid) (th : Thread) :
+    (stepRaise s t th).heap = s.heap ∧ (stepRaise s t th).stubs = s.stubs ∧
+    (stepRaise s t th).callCache = s.callCache ∧ (stepRaise s t th).loaderCache = s.loaderCache :=
+  ⟨rfl, rfl, rfl, rfl⟩
+
+/-- `@dataclass class Twin: a: int; b: int` (ty 1; the loader of `int`, ty 2, is a call-cache HIT for field `b`)
+    and a type nobody can load (ty 3, e.g. `Callable[[int], int]`: all seven shape providers are probed through
+    `cached_call` and raise) - the graphs the harness builds for the scenario `mix:load:Twin:0|load:Unloadable:0`. -/
+def twinG : Graph where
+  node := fun ty =>
+    match ty with
+    | 1 => { site := 10, kind := .fresh false, pre := [(1, 1000, .fail), (2, 1000, .fail), (3, 1000, .aux)],
+             children := [1, 2] }
+    | 2 => { site := 16, kind := .prim 1, pre := [], children := [] }
+    | 3 => { site := 7, kind := .fail,
+             pre := [(1, 1001, .fail), (2, 1001, .fail), (3, 1001, .fail), (4, 1001, .fail), (5, 1001, .fail),
+                     (6, 1001, .fail)], children := [] }
+    | _ => default
+  locTy := fun l => match l with | 1 => 2 | 2 => 2 | 3 => 1 | 4 => 2 | 5 => 3 | _ => 0
+  topLoc := fun ty => match ty with | 1 => 3 | 2 => 4 | 3 => 5 | _ => 0
+
+/-- thread 0 (`Twin`) runs until it has seen the `int` loader in the call cache and is about to read it; thread 1
+    issues its whole failing request; thread 0 goes on.  One preemption - the window of the check-then-read. -/
+def failInsideWindow : List Tid := List.replicate 8 0 ++ List.replicate 9 1 ++ List.replicate 6 0
+
+/-- non-vacuity of `cached_call_read_never_misses` / `failing_request_gets_not_found`: thread 0 really sits
+    between the check and the read when thread 1 fails; the static check holds; and the outcome is the
+    single-threaded one: the loader result for `Twin`, ProviderNotFoundError for the other thread -/
+example :
+    ((run (retort twinG .byId 12 16) (init [(1, 0), (3, 0)]) (List.replicate 8 0)).threads[0]?.map (·.phase)) =
+      some (.run 4 .get) ∧
+    WellTyped twinG 12 [(1, 0), (3, 0)] ∧
+    results (run (retort twinG .byId 12 16) (init [(1, 0), (3, 0)]) failInsideWindow) =
+      [some (unfold twinG 16 0 1), some .notFound] ∧
+    unfold twinG 16 0 1 = .ok [2, 2, 2, 0] ∧
+    allDone (run (retort twinG .byId 12 16) (init [(1, 0), (3, 0)]) failInsideWindow) = true := by
+  refine ⟨by decide +kernel, ?_, by decide +kernel, by decide +kernel, by decide +kernel⟩
+  intro r hr
+  simp only [List.mem_cons, List.mem_nil_iff, or_false] at hr
+  rcases hr with h | h <;> subst h <;> decide +kernel
 
 /-! ### the unrepaired tree: stubs equal by location -/
 
